@@ -5,37 +5,63 @@
 
 namespace c01 {
 
+// The tree lives on the heap and is deliberately leaked when the case fails: a tree that has diverged from the model may
+// be structurally broken (e.g. a node below a node of the same label), and its destructor would then not terminate.
+template <class ST>
+struct Tree_holder {
+  vh::Case& c; ST* p;
+  explicit Tree_holder(vh::Case& c_) : c(c_), p(new ST) {}
+  ~Tree_holder() { if (!c.failed) delete p; }
+  Tree_holder(const Tree_holder&) = delete;
+};
+
+// a value different from v (v may be infinite)
+inline double other_value(double v) { return std::isfinite(v) ? v + 8.0 : 0.0; }
+
+// sample_simplices > 0: large complexes, the per-simplex sweeps (boundary / star / cofaces) and the rebuilt trees are sampled
 template <class Options>
-void exec_history(vh::Case& c, const stc::History& h, const std::string& optname) {
+void exec_history(vh::Case& c, const stc::History& h, const std::string& optname, int sample_simplices = 0) {
   typedef Gudhi::Simplex_tree<Options> ST;
-  ST st;
+  Tree_holder<ST> holder(c);
+  ST& st = *holder.p;
   stc::ComplexModel M;
   vh::Rng r2(vh::hash_mix(c.rng.next(), 77));
   const std::string pfx = "";
   for (size_t i = 0; i < h.ops.size(); ++i) {
     const stc::Op& op = h.ops[i];
     c.log("[" + optname + "] " + op.show());
+    // the state the operation starts from: is the cached dimension bound stale on a non-empty complex?
+    if (!M.cx.empty() && st.upper_bound_dimension() > M.dimension()) {
+      c.count("state.stale_bound_nonempty_at_op");
+      c.count(std::string("state.stale_bound_nonempty_at_op.") + stc::op_name(op.kind));
+    }
     if (!stc::apply_op(c, st, M, op, pfx)) return;
-    std::string sig = std::string("op=") + stc::op_name(op.kind) + "," + op.cls;
-    if (!stc::full_check(c, st, M, h.universe, sig, op.query_dimension, pfx)) return;
+    std::string sig = op.sig();
+    stc::ObsOpt oo; oo.qmode = op.mode(); oo.ext = true; oo.rng = &r2; oo.sample_simplices = sample_simplices;
+    c.count("qmode." + vh::str(oo.qmode));
+    if (!stc::full_check(c, st, M, h.universe, sig, oo, pfx)) return;
     c.count("steps");
     if (M.cx.empty()) c.count("state.empty_complex");
     // equality against a tree rebuilt from the model by another route, and against a one-simplex perturbation
-    if (r2.chance(1, 3)) {
+    if (r2.chance(1, sample_simplices > 0 ? 6 : 3)) {
+      const bool stale = !M.cx.empty() && st.upper_bound_dimension() > M.dimension();
+      if (stale) c.count("cmp.equality_under_stale_bound");
+      const std::string esig = sig + (M.cx.empty() ? ",complex_empty" : (stale ? ",stale_bound" : ",exact_bound"));
       ST other;
       stc::build_from_model(other, M);
       c.count("cmp.equality");
-      if (!(st == other) || (st != other)) { c.violation("equality.equal_trees", sig + (M.cx.empty() ? ",complex_empty" : "") + (op.query_dimension ? ",after_dimension_query" : ",no_dimension_query"), "operator== false against a tree rebuilt from the same complex (" + vh::str(M.cx.size()) + " simplices)"); return; }
-      if (!(other == st)) { c.violation("equality.symmetric", sig, "operator== not symmetric"); return; }
+      if (!(st == other) || (st != other)) { c.violation("equality.equal_trees", esig, "operator== false against a tree rebuilt from the same complex (" + vh::str(M.cx.size()) + " simplices)"); return; }
+      if (!(other == st)) { c.violation("equality.symmetric", esig, "operator== not symmetric"); return; }
       // perturbation: drop one maximal simplex, or change one value
       if (!M.cx.empty()) {
         stc::ComplexModel P = M;
         std::vector<stc::Simplex> mx; for (auto& kv : P.cx) if (P.is_maximal(kv.first)) mx.push_back(kv.first);
         bool by_value = Options::store_filtration && r2.chance(1, 2);
-        if (by_value) P.cx[mx[r2.below(mx.size())]] += 8.0; else P.cx.erase(mx[r2.below(mx.size())]);
+        const stc::Simplex& ps = mx[r2.below(mx.size())];
+        if (by_value) P.cx[ps] = other_value(P.cx[ps]); else P.cx.erase(ps);
         ST pert; stc::build_from_model(pert, P);
         c.count("cmp.inequality");
-        if (st == pert) { c.violation("equality.different_trees", sig + (by_value ? ",value_differs" : ",simplex_missing"), "operator== true against a different complex"); return; }
+        if (st == pert || pert == st) { c.violation("equality.different_trees", esig + (by_value ? ",value_differs" : ",simplex_missing"), "operator== true against a different complex"); return; }
       }
     }
   }
